@@ -422,6 +422,9 @@ func getBidByNameCore(boardID *ptttype.BoardID_t) (idx ptttype.SortIdxInStore, b
 		if end == start {
 			break
 		} else if idx_i32 == start {
+			if j < 0 { // the key sorts before the first entry of the range: it is the nearest one
+				break
+			}
 			idx_i32 = end //nolint
 			start = end
 		} else if j > 0 {
@@ -469,6 +472,9 @@ func getBidByClassCore(cls []byte, boardID *ptttype.BoardID_t) (idx ptttype.Sort
 		if end == start {
 			break
 		} else if idx_i32 == start {
+			if j < 0 { // the key sorts before the first entry of the range: it is the nearest one
+				break
+			}
 			idx_i32 = end //nolint
 			start = end
 		} else if j > 0 {
